@@ -53,7 +53,7 @@ func c04GenIdent(rt *rapid.T, label string, small bool) string {
 
 func TestC04(t *testing.T) {
 	V.Rule("lab: rapid state machines over 1-12 concurrent dialogs per history on services with 2-6 UDP (and one TCP) backends: initial INVITE (UDP or TCP ingress) -> lands on some backend; that backend answers 100 / 18x with To-tag / 2xx / 4xx-6xx with To-tag from its configured address (UDP socket or the proxy's TCP connection); in-dialog ACK, BYE (never answered), re-INVITE, UPDATE, INFO, PRACK, MESSAGE, REFER, OPTIONS, NOTIFY, SUBSCRIBE in both directions (From/To swapped) from any user agent, plain or decorated (display names, URI parameters, compact names); backend-issued SUBSCRIBE answered by the user agent (Expires 3600 / 60 / 0 / absent), the first NOTIFY optionally sent right behind the 2xx from the same socket, refresh and un-subscribe (Expires: 0) by the backend, then NOTIFY in that dialog; unrelated out-of-dialog requests advancing the rotation in between; stray requests with both tags of an unknown dialog; one service instance with a dialog timeout of 2 s and pauses of 60-220 ms in its histories, where a pin younger than the timeout must survive every expiry sweep (older ones are don't-cares). a fault history (backend-outage): a dialog pinned to the TCP backend, the backend's listener closed and its connections reset, 0-3 in-dialog requests (they may reach nobody, never another backend), the backend listening again, 1-3 in-dialog requests (each at the pinned backend). a resolution history (pool-flap): a dialog pinned to a member of a resolved TCP pool, whose address then leaves the pool and may join it again while the backend itself keeps listening - the dialog's requests still reach it. Identifiers from small alphabets (tags containing '-', equal From and To URIs, tel:/urn: identities) or long ones. Oracle: model pins; a pinned in-dialog request must arrive at the pinned backend and at no other endpoint (FIFO barrier), unpinned/stray ones at exactly one backend. non-trivial = pinned in-dialog request for which the rotation alone would have picked another backend; distinct by (dialog shape, method, direction)")
-	V.Require("a dialog through each of two listen entries that share a tcp backend", "the pinned backend's address left the resolved pool", "pinned tcp backend down and up again", "CSeq written with more than one blank or a tab before the method", "NOTIFY right behind the 2xx of a backend-issued SUBSCRIBE", "short timeout: pinned request after a pause", "pinned request while rotation points elsewhere", "direction: callee->service", "direction: caller->service", "method:ACK", "method:BYE", "method:INVITE", "method:UPDATE", "method:NOTIFY", "method:SUBSCRIBE", "pin by backend-issued SUBSCRIBE", "SUBSCRIBE answered with Expires: 0", "equal From and To URIs", "tag contains '-'", "unpinned dialog (only 100 so far)", "stray in-dialog request", "tcp backend pinned", "pin by non-2xx final with To-tag")
+	V.Require("the caller is on a backend's own address", "a dialog through each of two listen entries that share a tcp backend", "the pinned backend's address left the resolved pool", "pinned tcp backend down and up again", "CSeq written with more than one blank or a tab before the method", "NOTIFY right behind the 2xx of a backend-issued SUBSCRIBE", "short timeout: pinned request after a pause", "pinned request while rotation points elsewhere", "direction: callee->service", "direction: caller->service", "method:ACK", "method:BYE", "method:INVITE", "method:UPDATE", "method:NOTIFY", "method:SUBSCRIBE", "pin by backend-issued SUBSCRIBE", "SUBSCRIBE answered with Expires: 0", "equal From and To URIs", "tag contains '-'", "unpinned dialog (only 100 so far)", "stray in-dialog request", "tcp backend pinned", "pin by non-2xx final with To-tag")
 	// the last instance runs with a dialog timeout of 2 s: its expiry sweep runs
 	// every 2 s under the histories, which sometimes pause; a pin younger than
 	// the timeout must survive every sweep (older ones are don't-cares)
@@ -147,6 +147,81 @@ func TestC04(t *testing.T) {
 			r := one(mk(m, id, "t"+id, 2+i))
 			if r.tcp == nil {
 				failf(rt, "listen entry %d and listen entry %d share the TCP backend %s:5080; a dialog through entry %d was answered by it (200 with To-tag over the proxy's connection); the dialog's %s then went to %s", 0, 1, s.ip(33), entry, m, r.where())
+			}
+		}
+	})
+	// The caller is on a backend's own address and port (a machine that serves as a
+	// backend and also places calls through the proxy): its dialog sticks to the
+	// backend that answered it, like anybody's.
+	rcheck(t, "caller-is-a-backend", V.N(10, 100), func(rt *rapid.T) {
+		s := svcs[2] // six UDP backends
+		l := s.in.cfg.Listens[0]
+		ci := rapid.IntRange(0, len(l.Backends)-1).Draw(rt, "the caller's backend")
+		_, chp, _ := strings.Cut(l.Backends[ci], "://")
+		cip, cport := splitHostPort(chp)
+		caller, err := s.in.hub.udpEP("backend-udp", cip, cport)
+		if err != nil {
+			V.HarnessError(rt, "bind: %v", err)
+		}
+		send := func(b []byte) error { return caller.sendUDP(l.Addr, l.UDPPort, b) }
+		mk := func(method, callID, toTag string, cseq int) []byte {
+			to := "<sip:b@nomatch.example>"
+			if toTag != "" {
+				to += ";tag=" + toTag
+			}
+			return []byte(fmt.Sprintf("%s sip:svc.test SIP/2.0\r\nVia: SIP/2.0/UDP %s:%d;branch=z9hG4bK%s-%d\r\nFrom: <sip:a@a.example>;tag=f\r\nTo: %s\r\nCall-ID: %s\r\nCSeq: %d %s\r\nContent-Length: 0\r\n\r\n", method, cip, cport, callID, cseq, to, callID, cseq, method))
+		}
+		one := func(wire []byte) labRx {
+			s.model.learnRequest(s.model.transport(0, "udp"), cip, &AMsg{IsReq: true, Hdrs: []AHdr{{Kind: hVia, Vias: []AVia{{Host: cip}}}}})
+			s.in.expect(wire)
+			if err := send(wire); err != nil {
+				V.HarnessError(rt, "send: %v", err)
+			}
+			rs, err := s.in.settle(send, 1)
+			if _, lost := err.(labLost); lost {
+				failf(rt, "%v", err)
+			} else if err != nil {
+				V.HarnessError(rt, "%v", err)
+			}
+			got := labMessages(rs)
+			if len(got) != 1 || !s.isBackendOf(got[0].ep, 0, got[0].tcp != nil) {
+				failf(rt, "a request for the service sent from %s (itself a backend's address) must reach exactly one backend; receptions:\n%s", chp, labDescribe(got))
+			}
+			return got[0]
+		}
+		var id string
+		var inv labRx
+		for try := 0; try < 3 && id == ""; try++ {
+			cand := s.nextID("c04c-")
+			if r := one(mk("INVITE", cand, "", 1)); r.ep != caller {
+				id, inv = cand, r
+			}
+		}
+		if id == "" {
+			return
+		}
+		resp := buildResponse(inv.msg, 200, "OK", "t"+id, "")
+		bep := inv.ep
+		bsend := func(b []byte) error { return bep.sendUDP(l.Addr, l.UDPPort, b) }
+		s.in.expect(resp)
+		if err := bsend(resp); err != nil {
+			V.HarnessError(rt, "backend send: %v", err)
+		}
+		rs, err := s.in.settle(bsend, 1)
+		if _, lost := err.(labLost); lost {
+			failf(rt, "%v", err)
+		} else if err != nil {
+			V.HarnessError(rt, "%v", err)
+		}
+		if got := labMessages(rs); len(got) != 1 || got[0].ep != caller {
+			return // C02's subject
+		}
+		V.Class("the caller is on a backend's own address")
+		V.NonTrivial("callerbackend|" + id)
+		for i, k := 0, rapid.IntRange(2, 4).Draw(rt, "in-dialog requests"); i < k; i++ {
+			m := rapid.SampledFrom([]string{"ACK", "INFO", "UPDATE", "BYE"}).Draw(rt, "in-dialog method")
+			if r := one(mk(m, id, "t"+id, 2+i)); r.ep != bep {
+				failf(rt, "the caller %s is itself a backend of the service; its INVITE was answered (200 with To-tag) by backend %s; the dialog's %s then went to %s", chp, bep, m, r.where())
 			}
 		}
 	})
